@@ -225,6 +225,9 @@ type intable interface {
 // If no normalization is required, the input value will be returned
 // unmodified from its original value.
 func (e *Expression) normalizeAdd(valueMessage protoreflect.Message, value fhir.Base) (fhir.Base, error) {
+	if valueMessage.Descriptor() == value.ProtoReflect().Descriptor() {
+		return value, nil // already of the element's type: keep it whole (id and extensions included)
+	}
 	var newVal fhir.Base
 	var err error
 	switch value := value.(type) {
